@@ -71,6 +71,9 @@ class Fitted:
                                     self.seed + 500,
                                     noise=2.0 if self.entry["kind"] in ("classifier", "regressor") else 0.5,
                                     unequal=bool(self.entry.get("unequal")))
+            if fitc == "nested" and self.seed % 2 == 1 and not self.entry.get("unequal"):
+                # series cells that carry the time labels of the stretch they were cut from (2000, 2001, ...)
+                Xtr = Xtr.applymap(lambda c: pd.Series(np.asarray(c), index=np.arange(2000, 2000 + len(c))))
             est = self.entry["factory"]()
             yy = np.asarray(ytr, dtype=float) if self.entry["kind"] == "regressor" else ytr
             import joblib
@@ -115,6 +118,14 @@ def run(ctx):
                 if n not in base_cache:
                     Xb, _ = panel_for(entry, n, ctx.seed + ei)
                     base_cache[n] = (Xb, apply(fitted.get("nested"), entry, Xb))
+                    # in between, the fitted objects are applied to a panel of SHORTER series (accepted or rejected --
+                    # either way nothing of it may stick)
+                    Xs, _ = E.make_panel(3, E.ncol(entry), max(4, entry.get("tp", 12) - 4), ctx.seed + ei + 7)
+                    for est_ in list(fitted.cache.values()):
+                        try:
+                            apply(est_, entry, Xs)
+                        except Exception:
+                            pass
                 Xb, base = base_cache[n]
                 if entry.get("unequal"):      # unequal-length panels only exist as nested frames
                     t = dict(t, fitc="nested", applyc="nested")
@@ -162,6 +173,12 @@ def replay(ctx, doc):
     fitted = Fitted(entry, ctx.seed + ei)
     Xb, _ = panel_for(entry, t["n"], ctx.seed + ei)
     base = apply(fitted.get("nested"), entry, Xb)
+    Xs, _ = E.make_panel(3, E.ncol(entry), max(4, entry.get("tp", 12) - 4), ctx.seed + ei + 7)
+    for est_ in list(fitted.cache.values()):
+        try:
+            apply(est_, entry, Xs)
+        except Exception:
+            pass
     Xt = Xb.iloc[[s - 1 for s in t["src"]]]
     if not t.get("keep"):
         Xt = Xt.reset_index(drop=True)
